@@ -67,7 +67,11 @@ def r1_strip_attrs_docs(toks, log, where):
                 e = match_close(toks, j)
                 txt = untok(toks[k:e + 1])
                 if re.match(r"#\[\s*(inline|allow|derive|doc|must_use|cold|deny|warn|cfg_attr|serde|default)\b", txt):
-                    log.append(("R1", where, txt.strip()[:80], "(deleted)"))
+                    if re.match(r"#\[\s*derive\b", txt) and re.search(r"\bCopy\b", txt):
+                        log.append(("R1", where, txt.strip()[:80], "#[derive(Clone, Copy)]"))
+                        out.extend(syn("#[derive(Clone, Copy)]"))
+                    else:
+                        log.append(("R1", where, txt.strip()[:80], "(deleted)"))
                     k = e + 1
                     n += 1
                     continue
@@ -83,6 +87,9 @@ def r1_strip_attrs_docs(toks, log, where):
 def r2_pub_fn(toks, log, where):
     """R2: make fn public: strip leading visibility, emit `pub`."""
     k = _next_code(toks, 0)
+    while toks[k].text == "#":
+        j = _next_code(toks, k + 1)
+        k = _next_code(toks, match_close(toks, j) + 1)
     if toks[k].text == "pub":
         j = _next_code(toks, k + 1)
         if toks[j].text == "(":
@@ -98,6 +105,8 @@ def r2_pub_fields(toks, log, where):
     """R2 for struct: every named field becomes pub."""
     # find body
     k = 0
+    while k < len(toks) and not (toks[k].kind == "ident" and toks[k].text == "struct"):
+        k += 1
     while k < len(toks) and not (toks[k].kind == "punct" and toks[k].text in "{(;"):
         if toks[k].text == "<":
             pass
